@@ -8,7 +8,7 @@ import sympy as sp
 
 from ..astutil import Defs, dotted, normal_compare, flip, walk_no_nested
 from ..flow import path_conditions, stmt_of, classify_coord_pred, cond_text
-from ..formula import Elem, LinearSum
+from ..formula import strip_restrict, Elem, LinearSum
 from ..report import AnalysisError
 
 FUNC = "gbasis.evals.electrostatic_potential.electrostatic_potential"
@@ -62,6 +62,7 @@ def run(repo, R):
 
     E.__class__ = E2
     E.lenient = True
+    E.track_restrict = True
     # run only the statements after the validation part: every statement that is not an If
     for st in fn.body:
         if isinstance(st, ast.If):
@@ -71,8 +72,21 @@ def run(repo, R):
         raise AnalysisError("SIGN", f"expected a single return, found {len(E.returns)}", f.where())
     ret = E.returns[0][1]
     E.check_not_opaque(ret, E.returns[0][0])
-    ret = ret.subs(dist_sym, d)
     where_ret = f.where(E.returns[0][0])
+    # boolean-mask reads (x[cond]) filter the arrays: every later sum runs over the selected elements only
+    ret, conds = strip_restrict(ret)
+    conds = sorted(set(conds), key=str)
+    zconds = [c for c in conds if c.free_symbols and c.free_symbols <= {Z}]
+    others = [c for c in conds if c not in zconds]
+    Zp = sp.Symbol("Zp", positive=True)
+    for c in zconds:
+        for name, val in (("positive", Zp), ("negative", -Zp)):
+            kept = sp.simplify(c.subs(Z, val))
+            R.check(kept == sp.true, "SIGN", f.site, f"nuclei with {name} charge under the selection `{c}`",
+                    f"the arrays of nuclei are filtered by `{c}` before the sum: a nucleus with {name} charge is left out of "
+                    "sum_A Z_A/|r - R_A| (only a zero charge may be skipped)", where=where_ret,
+                    expected="every nucleus with non-zero charge contributes", found=f"selection {c}")
+    ret = ret.subs(dist_sym, d)
     # split the result into the part that depends on the nuclear charges and the rest
     ret = sp.expand(ret) if ret.is_Add else ret
     terms = sp.Add.make_args(ret)
@@ -95,6 +109,8 @@ def run(repo, R):
         R.fail("SIGN", f.site, "nuclear term", "the nuclear part of the result is not a sum over nuclei of a per-nucleus term",
                where=where_ret, expected="+ sum_A Z_A / d_A (thresholded)", found=str(nuc_total))
     else:
+        if others:
+            T = sp.Piecewise((T, sp.And(*others)), (sp.Integer(0), True))
         decide_d1(R, f, T, Z, d, thr_s, p, n, where_ret)
     if len(pci_calls) != 1:
         raise AnalysisError("FWD", f"expected one call of point_charge_integral, found {len(pci_calls)}", f.where())
